@@ -25,13 +25,13 @@ def run(tier, rep):
         'evaluations': x['runs'] + x['roundtrip_events'], 'distinct_nontrivial': x['states'],
         'roundtrip_events': x['roundtrip_events'], 'exhaustive': True, 'samples': x['samples'],
         'rule': 'state = (stream length N <= %d, split of the stream over 1..3 files incl. empty and white-space-only files, start in 0..N+1, max in 0..N+1); '
-                'for each state every call pattern with 1..3 has_next_event() calls before each load and 3 after exhaustion is run on a real event_reader over real '
+                'for each state every call pattern with 0..3 has_next_event() calls before each load and 3 after exhaustion is run on a real event_reader over real '
                 'files; reference model = list slice events[start:start+max]; every has_next answer, every loaded event, the loaded counter are compared. Round trip: '
                 'single-particle events over the full product species x time x px x py x pz of an 9-value alphabet (incl. denormal-edge and 1e300), structured '
-                '0/2/3-particle events, written exactly as bxdecay0-run writes records' % nmax,
+                '0/2/3-particle events, written exactly as bxdecay0-run writes records, once on a stream prepared like the driver\'s (precision 15) and once on a stream left at its defaults' % nmax,
     })
     rep.assumptions += ['record format = "<id> " + event::store(STORE_EVENT_TIME) + blank line, as written by programs/bxdecay0_driver.cpp',
-                        'load_next_event is only issued after has_next_event returned true (the property does not cover unannounced loads)']
+                        'an unannounced load_next_event is only issued when the reference model says an event of the window is due']
 
 
 def replay(path):
